@@ -91,7 +91,7 @@ def oracle(s, lines):
                 if t[2] in ("key", "ini"):
                     ref.sections.append(NONE)
                 continue
-            if c in ("RF", "M") and ref is None:
+            if c in ("RF", "M", "RD") and ref is None:
                 next(out)
                 continue      # parsed / merged start: the reference map starts from the object's own first dump (below)
             if c == "FREE" and ref is None:
@@ -170,7 +170,7 @@ def oracle(s, lines):
                 want = "keys E0" + "".join(" h" + x.hex() for x in ks) if ks else "keys E5"
                 if res != want:
                     return "%s -> %r, reference map says %r" % (cmd, res, want)
-            elif c in ("EXT", "PATH", "TAGS", "FREE", "M"):
+            elif c in ("EXT", "PATH", "TAGS", "FREE", "M", "RF", "RD"):
                 next(out)
             elif c == "W":
                 if next(out) == "w E0":
@@ -194,7 +194,7 @@ def nontrivial(s, lines):
 
 
 def histogram(s, lines):
-    ks = ["start_%s" % ["newKeyFile", "newIniFile", "with_options", "parsed", "merged"][s.meta.get("start", 0)]] if "start" in s.meta else ["corpus"]
+    ks = ["start_%s" % ["newKeyFile", "newIniFile", "with_options", "parsed", "merged", "readDirs"][s.meta.get("start", 0)]] if "start" in s.meta else ["corpus"]
     nset = sum(1 for l in lines if l == "set E0")
     ks.append("growth_beyond_8" if nset > 8 else "within_8")
     for l in lines:
